@@ -282,9 +282,16 @@ func (s MergedStore) ListPredicates() []ast.PredicateSym {
 	return res
 }
 
-// Merge forwards to writeStore.Merge
+// Merge adds all facts from other that no store holds yet to the write store.
+// Going through Add keeps the write store disjoint from the read stores, so
+// that GetFacts does not report a merged fact twice.
 func (s MergedStore) Merge(other ReadOnlyFactStore) {
-	s.writeStore.Merge(other)
+	for _, pred := range other.ListPredicates() {
+		other.GetFacts(ast.NewQuery(pred), func(fact ast.Atom) error {
+			s.Add(fact)
+			return nil
+		})
+	}
 }
 
 // NewMergedStore returns a new MergedStore.
